@@ -162,7 +162,12 @@ def run_spec(spec):
                     elif t['kind'] == 'download':
                         if t.get('dst', 'path') == 'path':
                             p = os.path.join(tmp, f'dst-{i}')
-                            if t.get('preexisting'):
+                            if t.get('dst_is_dir'):
+                                # the destination name is an existing non-empty directory: the request can succeed, the final rename cannot
+                                os.mkdir(p)
+                                with open(os.path.join(p, 'keep'), 'wb') as f:
+                                    f.write(b'k')
+                            elif t.get('preexisting'):
                                 prevs[i] = b'previous-' + str(i).encode()
                                 with open(p, 'wb') as f:
                                     f.write(prevs[i])
@@ -337,7 +342,10 @@ def evaluate(spec, run):
         if i in run.submit_exc:
             viol.append(V(f'transfer {i}: submission itself raised {run.submit_exc[i]!r}', sym='submit-raised', **m))
         elif oc is not None:
-            if t['outcome'] == 'ok' and oc[0] != 'success' and spec.get('exit') not in ('shutdown_cancel', 'with_exc'):
+            if t.get('dst_is_dir'):
+                if oc[0] == 'success':
+                    viol.append(V(f'transfer {i}: the temporary file could not be renamed onto a directory but result() returned normally', sym='false-success', **m))
+            elif t['outcome'] == 'ok' and oc[0] != 'success' and spec.get('exit') not in ('shutdown_cancel', 'with_exc'):
                 viol.append(V(f'transfer {i}: request succeeded but result() raised {oc[1]!r}', sym='false-failure', **m))
             if t['outcome'] != 'ok' and oc[0] == 'success':
                 viol.append(V(f'transfer {i}: request outcome {t["outcome"]} but result() returned normally', sym='false-success', **m))
@@ -348,6 +356,10 @@ def evaluate(spec, run):
             left = [n for n in os.listdir(run.tmp) if n.startswith(base + '.') and scenario.TEMP_RE.search(n)]
             if left:
                 viol.append(V(f'transfer {i} (download to path, {t["outcome"]}): temporary file {left} left behind', sym='temp-left', **m))
+            if t.get('dst_is_dir'):
+                if not os.path.isdir(p) or os.listdir(p) != ['keep']:
+                    viol.append(V(f'transfer {i}: the directory at the destination name was changed', sym='dest-changed', **m))
+                continue
             cur = open(p, 'rb').read() if os.path.exists(p) else None
             if oc is not None and oc[0] == 'success' and cur != run.datas[i]:
                 viol.append(V(f'transfer {i}: successful path download but destination is {None if cur is None else len(cur)} bytes',
@@ -382,6 +394,8 @@ def gen_cases(tier, seed):
                     t = dict({'kind': k, 'outcome': o, 'size': rng.choice([0, 5, 40]), 'subs': rng.choice([1, 2])}, **extra)
                     if k == 'download' and extra['dst'] == 'path':
                         t['preexisting'] = rng.random() < 0.4
+                        if rng.random() < 0.15:
+                            t['dst_is_dir'] = True
                     ts.append(t)
                 cases.append({'seed': rng.randrange(1 << 30), 'permits': rng.choice([1, 2, 3]), 'transfers': ts, 'order': order,
                               'exit': rng.choice(['shutdown', 'with'])})
@@ -392,6 +406,8 @@ def gen_cases(tier, seed):
         for j in range(n):
             k, extra = rng.choice(kinds)
             t = dict({'kind': k, 'outcome': rng.choice(OUTCOMES + ['ok', 'ok']), 'size': rng.choice([0, 5, 40]), 'subs': rng.choice([1, 2, 3])}, **extra)
+            if k == 'download' and extra['dst'] == 'path' and rng.random() < 0.2:
+                t['dst_is_dir'] = True
             ts.append(t)
         permits = rng.choice([1, 2, 3, 128])
         # requests still pending when the exit begins: fewer than the permits, or the submitter itself could not finish
